@@ -258,6 +258,28 @@ def norm_eps_side(cls: dict, e: int, norm_eps: float, c2min: float = 1.0, c2max:
     return "ambiguous"
 
 
+def scaled_sides(cls: dict, gd: list[int], c: list[int], e: int, norm_eps: float) -> tuple[str, bool]:
+    """Singular values of  X = 2^e diag(c) J  against norm_eps, decided exactly from model data
+    (spec/AggSymmetry.tla, RowBracket):  gd[i] = |g_i|^2 (exact integers), lamFloor <= sigma_max(J)^2 < lamFloor + 1.
+
+        max( max_i c_i^2 gd_i , lamFloor min c^2 )  <=  sigma_max(X)^2 4^-e  <=  min( sum_i c_i^2 gd_i , (lamFloor+1) max c^2 )
+        sigma_r(X)^2 4^-e  <=  min { c_i^2 gd_i : gd_i > 0 }        (non-zero rows independent: cls.rankUnamb)
+
+    Returns (side of sigma_max: 'above' | 'below' | 'ambiguous',
+             True iff a NON-ZERO singular value is certified below norm_eps)."""
+    if cls["trG"] == 0:
+        return "below", False
+    rows = [Fraction(ci) ** 2 * g for ci, g in zip(c, gd)]
+    c2 = [Fraction(ci) ** 2 for ci in c]
+    lo = max(max(rows), cls["lamFloor"] * min(c2)) * Fraction(4) ** e
+    hi = min(sum(rows), (cls["lamFloor"] + 1) * max(c2)) * Fraction(4) ** e
+    t = Fraction(norm_eps) ** 2
+    up, dn = t * (1 + Fraction(1, 10 ** 6)), t * (1 - Fraction(1, 10 ** 6))
+    side = "above" if lo > up else "below" if hi < dn else "ambiguous"
+    small = bool(cls["rankUnamb"]) and min(r for r in rows if r > 0) * Fraction(4) ** e < dn
+    return side, small
+
+
 def cond_of(r: dict, cls: dict, m: int, name: str) -> float:
     base = 4.0 * m * m
     k = r["kind"]
